@@ -168,14 +168,14 @@ func rollbackTruncK1(e *engine.Engine) (fails []string, n int) {
 			continue
 		}
 		n++
-		mod := k1Model.Ask(fmt.Sprintf("rollbacktruncate %d %d %d %d %d", rt.MetaEnd, rt.DataEnd, rt.SzBefore, rt.PageSize, rt.MaxPages))
+		mod := k1Model.Ask(fmt.Sprintf("rollbacktruncate %d %d %d %d %d %d", rt.MetaEnd, rt.DataEnd, rt.OtherEnd, rt.SzBefore, rt.PageSize, rt.MaxPages))
 		impl := "none"
 		if rt.NewSize >= 0 {
 			impl = fmt.Sprint(rt.NewSize)
 		}
 		if impl != mod {
-			fails = append(fails, fmt.Sprintf("rollback-truncate-k1: a rollback on a file of %d bytes (restored end markers: meta %d, data %d; %d pages of %d bytes max) truncated it to %s, model: %s",
-				rt.SzBefore, rt.MetaEnd, rt.DataEnd, rt.MaxPages, rt.PageSize, impl, mod))
+			fails = append(fails, fmt.Sprintf("rollback-truncate-k1: a rollback on a file of %d bytes (restored end markers: meta %d, data %d; other header ends at %d; %d pages of %d bytes max) truncated it to %s, model: %s",
+				rt.SzBefore, rt.MetaEnd, rt.DataEnd, rt.OtherEnd, rt.MaxPages, rt.PageSize, impl, mod))
 		}
 	}
 	return fails, n
